@@ -244,6 +244,68 @@ def _h_history(m, d, ops):
     return fn
 
 
+def foreign_expunge(g, sim, base, k, how, a, b, check):
+    """session 0 has INBOX selected (3 messages with distinct dates); session 1 expunges message k; session 0, not yet
+    told, copies / moves a set to Other.  Every (source, destination) pair handed to COPYUID names one message: the
+    destination UID holds the copy of exactly that source UID, the expunged message is in no pair, and there is one
+    pair per message that arrived.  returns error|None"""
+    rec, restore = _record_copyuid(g)
+    try:
+        w = sim.World(g, 2, base_uid=base, check=check)
+        dt, tz = g['datetime'], g['timezone'].utc
+        for i in range(3):
+            w.append(1, 'INBOX', when=dt(2020, 1, 1 + i, tzinfo=tz))
+        w.select(0)
+        w.select(1)
+        date_of = {}
+        src = list(w.mbx('INBOX')._messages.items())
+        w.store(1, [k], [g['Deleted']], 'ADD', silent=True)
+        w.expunge(1)
+        gone = [(u, m) for u, m in src if not any(bool(u == u2) for u2, _, _ in w.dump('INBOX'))]
+        before = [u for u, _, _ in w.dump('Other')]
+        rec['pairs'] = None
+        elems = [(1, '*')] if how.endswith('all') else [a, b]
+        cond, resp = w.copy(0, elems, 'Other', move=how.startswith('move'))
+        if cond != 'OK':
+            return None
+        pairs = rec['pairs'] or []
+        arrived = list(w.mbx('Other')._messages.items())[len(before):]
+        if len(pairs) != len(arrived):
+            return 'COPYUID holds %d pairs, %d messages arrived' % (len(pairs), len(arrived))
+        for s_uid, d_uid in pairs:
+            for gu, _ in gone:
+                check(s_uid != gu, 'COPYUID names a source UID that had been expunged and was not copied')
+            smsg = [m for u, m in src if bool(u == s_uid)]
+            dmsg = [m for u, m in arrived if bool(u == d_uid)]
+            if len(smsg) != 1 or len(dmsg) != 1:
+                return 'COPYUID pair (%s, %s) does not name a source message and an arrived message' % (s_uid, d_uid)
+            if smsg[0].internal_date != dmsg[0].internal_date:
+                return 'COPYUID pairs source UID %s with the copy of another message' % (s_uid,)
+        return None
+    finally:
+        restore()
+
+
+FOREIGN_HOW = ['copy_all', 'move_all', 'copy_two', 'move_two']
+
+
+def _h_foreign():
+    def fn(eng):
+        from pysymex import SymUid, B, AND, Outcome
+        base = eng.fresh_int('base', 0, cls=SymUid)
+        how = FOREIGN_HOW[eng.choose('how', len(FOREIGN_HOW))]
+        k = eng.fresh_int('k', 1, 3, cls=SymUid)
+        a = eng.fresh_int('a', 1, 4, cls=SymUid)
+        b = eng.fresh_int('b', 1, 4, cls=SymUid)
+        obligations = []
+        wit = lambda mdl: {'base': base.eval(mdl), 'how': how, 'k': k.eval(mdl), 'a': a.eval(mdl), 'b': b.eval(mdl)}  # noqa: E731
+        err = foreign_expunge(_g, _g['_sim'], base, k, how, a, b, lambda c, msg='': obligations.append(B(c)))
+        if err is not None:
+            return Outcome(False, witness=wit, info=err)
+        return Outcome(AND(*obligations), witness=wit)
+    return fn
+
+
 def expand(g, ss, top=10 ** 9):
     """members of a parsed sequence set, in wire order"""
     out = []
@@ -391,6 +453,9 @@ def harnesses(tier):
                               {'layout': layout, 'pre_state': 'folders A and B, one message each', 'history_depth': d,
                                'ops': 'RENAME / DELETE / CREATE / APPEND over the names A, B, C (%d forms)' % len(_mdset.OPS)},
                               replay='mdset', task_budget=60))
+    hs.append(Harness('copyuid_after_foreign_expunge', _h_foreign(),
+                      {'messages': 3, 'expunged_by_other_session': 'symbolic 1..3', 'then': FOREIGN_HOW,
+                       'set_numbers': 'symbolic 1..4', 'uid_base': 'unbounded'}, replay='foreign', task_budget=60))
     for k in range(1, (3 if q else 4) + 1):
         hs.append(Harness('copyuid_pairs[k=%d]' % k, _h_copyuid(k), {'pairs': k, 'numbers': '1..9999'},
                           replay='copyuid', task_budget=60))
@@ -415,6 +480,10 @@ def replay(harness, w):
             bad.append(msg or 'obligation failed')
     if harness == 'history':
         err = program(g, _sim, w['base'], w['m'], [(op, tuple(a) if isinstance(a, list) else a) for op, a in w['script']], check)
+        if err:
+            bad.append(err)
+    elif harness == 'foreign':
+        err = foreign_expunge(g, _sim, w['base'], w['k'], w['how'], w['a'], w['b'], check)
         if err:
             bad.append(err)
     elif harness == 'mdset':
